@@ -239,7 +239,8 @@ impl Memfs {
         // Validate path components
         let dir = path.dir()?;
         if let Some(entry) = guard.get_entry(&dir) {
-            if !entry.is_dir() {
+            // A link to a directory is not a directory that can hold entries itself
+            if !entry.is_dir() || entry.is_symlink() {
                 return Err(PathError::is_not_dir(dir).into());
             }
         } else {
